@@ -7,7 +7,7 @@ NoLit == [pre |-> FALSE, post |-> FALSE, esc |-> FALSE, nph |-> 1, ref |-> "next
 Lits == [pre : BOOLEAN, post : BOOLEAN, esc : BOOLEAN, nph : 0..2,
          ref : {"next", "pos0", "pos1", "pos2", "pos_wrap0", "name_field", "name_other"},
          ty : PhTypes, mod : {"none", "ws", "colon", "colon_ws", "width", "fill", "left", "center", "right", "sign", "minus", "alt", "zero", "prec"}]
-ArgForms == {"none", "pos_field", "pos_expr", "named_match", "named_nomatch", "two"}
+ArgForms == {"none", "pos_field", "pos_expr", "named_match", "named_nomatch", "two", "named_extra"}
 
 Shareds == {"none", "bare_variant", "wrap", "default"}
 Cases == [hasAttr : {TRUE}, nfields : 1..2, named : BOOLEAN, D : DerivedTraits, lit : Lits, args : ArgForms, sh : Shareds]
@@ -29,7 +29,8 @@ Interesting(x) ==
     /\ (x.sh # "none" => /\ x.D # "Debug"                        \* no enum-level format on Debug (C07)
                           /\ x.lit.mod = "none" /\ ~x.lit.pre /\ ~x.lit.post /\ x.lit.nph = 1
                           /\ x.args \in {"none", "pos_field"} /\ x.lit.ref \in {"next", "name_field", "pos1"})
-    /\ (x.lit.ref = "name_other" => x.args \in {"none", "named_match", "pos_field"})
+    /\ (x.lit.ref = "name_other" => x.args \in {"none", "named_match", "pos_field", "named_extra"})
+    /\ (x.args = "named_extra" => x.lit.ref \in {"name_other", "name_field"} /\ x.lit.nph = 1 /\ x.sh = "none")
 
 Init == c = [hasAttr |-> FALSE, nfields |-> 0, named |-> FALSE, D |-> "Display", lit |-> NoLit, args |-> "none", sh |-> "none"]
 Next == c.nfields = 0 /\ c' \in {x \in Cases : Interesting(x)}
